@@ -11,7 +11,7 @@ FUNCTIONS = ["FixedLifetime._survival_by_year_id", "InflowDrivenDSM._compute_sto
 ASSUMPTIONS = ["time items strictly increasing", "survival table in [0,1], non-increasing with age; diagonal >= 1/20 for the stock-driven class",
                "scipy.linalg.solve_triangular satisfies its documented contract (lapack solver)"]
 OUTSIDE = ["n beyond the bound", "IEEE rounding", "LAPACK internals"]
-VARIANTS = 'computed before with another driver; result arrays as transposed views (2 label dims); inflow_at start / end; 33 time items on concrete 0/1 tables; a second model of the same shape computed before the tables are read; shipped classes with inflow_at start / end'
+VARIANTS = 'computed before with another driver; result arrays as transposed views (2 label dims); inflow_at start / end; 33 time items on concrete 0/1 tables; a second model of the same shape computed before the tables are read; shipped classes with inflow_at start / end; a label dimension lettered c and as long as the time dimension'
 BOUNDS = {"quick": dict(n=[3, 4], extra=["-", "r2"], grids=dsm.GRIDS, classes="idsm, sdsm manual, sdsm lapack", table="free symbolic (every lifetime model)"),
           "thorough": dict(n=[3, 4, 5, 6], extra=["-", "r2", "r2xp2"], grids=dsm.GRIDS, classes="as quick")}
 for _t in BOUNDS.values():
@@ -41,6 +41,9 @@ def configs(tier, seed):
         for kind in ("sdsm_lapack", "sdsm_manual"):
             out.append(dict(h="cohorts", op=kind + "2d", key=f"cohorts/{kind}/grid=uneven/n=3/extra=r2xp2", kind=kind, grid="uneven", n=3, extra={"r": 2, "p": 2}))
             out.append(dict(h="cohorts", op=kind + "2d3", key=f"cohorts/{kind}/grid=const/n=3/extra=r2xp3", kind=kind, grid="const", n=3, extra={"r": 2, "p": 3}))
+    # a label dimension lettered c (as in "cohort") and as long as the time dimension
+    for kind in KINDS:
+        out.append(dict(h="cohorts", op=kind + "c", key=f"cohorts/{kind}/grid=uneven/n=3/extra=c3", kind=kind, grid="uneven", n=3, extra={"c": 3}))
     # the model object was computed before with another driver (a scenario loop): every statement holds for the latest compute
     for kind in KINDS:
         for extra in ({}, {"r": 2}):
